@@ -94,6 +94,7 @@ func nodeFacts(x *X) error {
 	}
 	ceCalls := x.Calls(ce)
 	x.StrList("calcExpirationCalls", ceCalls)
+	x.StrList("calcExpirationSkeleton", x.Skeleton(ce))
 	x.Bool("expiryCountsFromNow", CallIndex(ceCalls, "IsZeroTime") >= 0 && CallIndex(ceCalls, "time.Now") >= 0)
 	de, err := x.Func(storageDir, "Store", "DeleteExpired")
 	if err != nil {
